@@ -1,4 +1,4 @@
-// C08 correspondence harness (uses harness/ceq_tree.h, CEQ_TREE_VERSION 5).
+// C08 correspondence harness (uses harness/ceq_tree.h, CEQ_TREE_VERSION 6).
 // Constrained forward dynamics: realize(Acceleration) on random trees with 1..6 random constraints of the C07 types
 // (incl. exact duplicates = redundant but consistent sets), random enable masks (Constraint::disable), random applied
 // forces, random violated states and states projected onto the velocity manifold.
@@ -70,7 +70,7 @@ static Built build(uint64_t treeSeed, int nBodies, const std::vector<Spec>& spec
         if (nu && gf.coin()) Force::MobilityConstantForce(M.forces, M.bodies[b], gf.below(nu), gf.range(-3.0, 3.0));
     }
     M.state = M.system.realizeTopology();
-    if (euler) M.matter.setUseEulerAngles(M.state, true);
+    if (euler || hasLineMobilizer(M)) M.matter.setUseEulerAngles(M.state, true);   // Line mobilizers: Euler only (see ceq_tree.h)
     M.system.realizeModel(M.state);
     return B;
 }
@@ -167,6 +167,7 @@ static void oneCase(uint64_t seed, long caseNo) {
     const bool fullrank = wellposed && rank == m;
     std::string tag = std::string(zeroG ? "zeroG" : wellposed ? (fullrank ? "fullrank" : "redundant") : "illcond") + (consistent ? "" : ".inconsistent") + (anyDisabled ? ".mask" : "");
     vh::D("chk." + icls + "." + tag + ".m" + std::to_string(std::min(m, 12)));
+    tagBodies(M);
     for (auto& ci : A.cons) vh::D(std::string("type.") + (ci.type == cSpeedCoupler && ci.fn && ci.fn->c == 0 && ci.cq.empty() ? "SpeedCouplerLinear" : consName(ci.type)));
     const double fscale = std::max(1.0, std::max(vmax(feff), mmax(Mm) * vmax(d.udot)));
     const bool finite = !std::isnan(vmax(d.udot)) && !std::isnan(vmax(d.lambda));
